@@ -73,10 +73,11 @@ def check_labels(z2d, ihmax, lab2d):
             if lev[m] < lev[c]:
                 ismin[comp[c]] = False
     nmin = sum(ismin)
+    tiny = ":value-range<1e-9" if max(z) - min(z) < 1e-9 else ""
     if min(lab) < 1:
-        return "unlabelled-bin" + (":value-range<1e-9" if max(z) - min(z) < 1e-9 else "")
+        return "unlabelled-bin" + tiny
     if max(lab) != nmin:
-        return "basin-count!=regional-maxima"
+        return "basin-count!=regional-maxima" + tiny
     if set(lab) != set(range(1, nmin + 1)):
         return "label-gap"
     lab_of = {}
